@@ -247,6 +247,37 @@ def run(ctx):
                 if got != exp:
                     ctx.failures.append(Failure("C19/records-differ", "records of a long-read file differ between containers / core counts", cell,
                                                 [(a, len(b)) for a, b in got][:5], [(a, len(b)) for a, b in exp][:5]))
+    # output that names the adapter found (--rename {adapter_name}) with adapters that tie on many reads (common start): the records must not depend
+    # on the number of cores or on how the input is cut into chunks
+    for _ in range(ctx.scale(2, 12)):
+        common = pipe.rs(rng, 13)
+        ads = [common + pipe.rs(rng, 8), common + pipe.rs(rng, 8), pipe.rs(rng, 6) + common[:6]]
+        recs = []
+        for i in range(rng.randint(150, 250)):
+            body = pipe.rs(rng, rng.randint(20, 40))
+            k = rng.random()
+            tail = common[: rng.randint(4, 13)] if k < 0.6 else rng.choice(ads) if k < 0.8 else ""
+            s_ = body + tail
+            recs.append((f"t{i}", s_, "I" * len(s_)))
+        text = clirun.fastq(recs)
+        argv = [t for j, a in enumerate(ads) for t in ("-a", f"ad{j}={a}")] + ["--rename", "{id} {adapter_name}", "-o", "{dir}/o.fastq"]
+        ref = None
+        for cores, buf, cont in [(1, None, "")] + [(rng.choice([2, 3, 4]), rng.choice([1500, 3000, 6000]), rng.choice(["", ".gz"])) for _ in range(3)]:
+            a_ = (["--buffer-size", str(buf)] if buf else []) + argv + ["{dir}/in.fastq" + cont]
+            res, out = run_one(a_, {"in.fastq" + cont: compress(text, cont) if cont else text}, cores)
+            ctx.evaluations += 1
+            ctx.count("tie-runs")
+            cell = dict(ties=True, adapters=ads, cores=cores, buffer_size=buf, input_container=cont or "plain", reads=len(recs))
+            if res.status != 0:
+                ctx.failures.append(Failure("C19/run-failed", "cutadapt failed on a valid combination", cell, res.stderr[-300:], 0))
+                continue
+            got = [(a, b) for a, b, _ in clirun.parse_fastx(out.get("o.fastq", ""))]
+            if ref is None:
+                ref = got
+            elif got != ref:
+                bad = [(x, y) for x, y in zip(got, ref) if x != y][:3]
+                ctx.failures.append(Failure("C19/records-differ", "the records (here: the name of the adapter found, for reads on which adapters tie) depend on the number of "
+                                            "cores / the chunking", cell, [x for x, y in bad] or len(got), [y for x, y in bad] or len(ref)))
     # standard output: `--fasta` forces FASTA, otherwise the input format; single-end and interleaved, one core and two
     import os
     import subprocess
